@@ -48,8 +48,8 @@ CHECKS.update({
          "Sequential: concurrent broadcasters are outside the claim.", "symbolic execution of go/ssa + z3, event-stream unit and L1 harnesses", "§5 C12"),
  "C15": ("The real streamWriter.Invoke encodes a batch of 1..2 (thorough 3) messages and the real streamReader.Receive decodes the resulting Envelope on a second bare engine. Targets, type names, payload byte, absence of a sender, the sender's address and id strings (1..2 symbolic bytes each, so equal senders and senders differing only in the address/id split are found by the solver) and a 'cannot be serialised' flag per message are symbolic. Oracle: same count (minus unserialisable ones), same order, right target, payload, type and sender, nil sender stays nil, no panic.",
          "Protobuf marshalling and DRPC framing are outside: serializer/deserializer are stubs and the Envelope is handed over in memory.", "symbolic execution of go/ssa + z3, writer/reader round-trip harness", "§5 C15"),
- "C16": ("The real streamReader.Receive is run on one Envelope with 0..2 type names, targets and senders and 1..2 (thorough 3) messages whose TargetIndex/SenderIndex/TypeNameIndex are unconstrained symbolic int32. Oracle: no panic; whatever is delivered went to the target, with the type and sender that the message's own in-range indices name; z3 decides every bounds check.",
-         "Starts from a decoded Envelope: the protobuf byte decoder and DRPC framing are outside the claim; the Deserializer is a stub.", "symbolic execution of go/ssa + z3, reader harness", "§5 C16"),
+ "C16": ("Three harnesses over the real receive path. (a) streamReader.Receive on one decoded Envelope with 0..2 type names, targets and senders and 1..2 (thorough 3) messages whose TargetIndex/SenderIndex/TypeNameIndex are unconstrained symbolic int32. (b) The real protobuf decoder Envelope.UnmarshalVT (with PID/Message.UnmarshalVT and skip) on every byte string of length 0..3 (thorough 0..7), each byte a symbolic 8-bit value, then the reader on whatever was accepted. (c) A well-formed table prefix from the real MarshalVT followed by one Messages field whose 0..4 (thorough 0..7) body bytes are symbolic, so multi-byte and negative index varints, unknown fields and truncated bodies are reached. Oracle everywhere: no panic in decoder or reader; a decoded envelope has no nil entries; whatever is delivered went to the target, with the type and sender that the message's own in-range indices name; z3 decides every branch on the bytes and every bounds check.",
+         "DRPC framing and payload decoding (stub Deserializer) are outside the claim; byte strings beyond the stated lengths are outside.", "symbolic execution of go/ssa + z3: reader harness, decoder on symbolic byte buffers", "§5 C16"),
  "C18": ("The real Agent.handleMembers/memberJoin/memberLeave/rebuildKinds and MemberSet code is run on sequences of 3 (thorough 4) snapshots over a universe of 3 (thorough 4) members; membership of each member in each snapshot and a duplicate entry are symbolic booleans. Oracle after each snapshot: view == snapshot by ID, exactly one join event per new member, one leave event per dropped member, none for members that stayed, kind set == kinds advertised by the view.",
          "Agent state is read directly instead of through the Members()/HasKind() request plumbing; members keep their host and kinds.", "symbolic execution of go/ssa + z3, agent snapshot harness", "§5 C18"),
  "C19": ("2 (thorough 3) real Agents on bare engines joined by a synchronous in-memory network; quiescent histories of 3 symbolic operations (activate from any member with the select function picking any offered member, deactivate, late join, leave), notifications drained in every arrival order. Oracle: Activate returns nil and spawns nothing for a known id or unknown kind, otherwise exactly one actor on the selected capable member; afterwards every member resolves the id to the same PID and GetActiveByKind lists it; late joiner learns all; deactivate removes everywhere and stops the actor; leave drops hosted activations.",
